@@ -106,10 +106,12 @@ class VonMisesTube(om.ExplicitComponent):
         radius = inputs["radius"]
         disp = inputs["disp"]
         nodes = inputs["nodes"]
-        T = self.T
+        # work arrays in the dtype of the current inputs: the ones cached by compute() are complex if it last ran under
+        # complex step (e.g. during a derivative check), which made this method fail afterwards
+        T = np.zeros((3, 3), dtype=nodes.dtype)
         E = self.E
         G = self.G
-        x_gl = self.x_gl
+        x_gl = np.array([1, 0, 0], dtype=nodes.dtype)
 
         num_elems = self.ny - 1
         for ielem in range(num_elems):
